@@ -175,6 +175,40 @@ def _native(fn, a, k):
         raise AnalysisError(f"peval: {getattr(fn, '__qualname__', fn)!s} with abstract arguments {a!r}: {e}")
 
 
+class NpInt(int):
+    """a numpy integer scalar: an integer for arithmetic, but `type(x) is int` and `isinstance(x, int)` are False
+    (np.int64 is no subclass of int); arithmetic with it gives numpy integers again"""
+
+    def _w(self, r):
+        return NpInt(r) if isinstance(r, int) and not isinstance(r, (bool, NpInt)) else r
+
+    def __repr__(self):
+        return f"np.int64({int(self)})"
+
+    def __str__(self):
+        return str(int(self))
+
+    def __format__(self, spec):
+        return format(int(self), spec)
+
+
+for _op in ("add", "sub", "mul", "floordiv", "mod", "and", "or", "xor", "lshift", "rshift", "pow"):
+    for _nm in (f"__{_op}__", f"__r{_op}__"):
+        def _mk(nm):
+            base = getattr(int, nm)
+
+            def f(self, other):
+                r = base(self, other)
+                return r if r is NotImplemented else NpInt._w(self, r)
+
+            return f
+
+        setattr(NpInt, _nm, _mk(_nm))
+NpInt.__neg__ = lambda self: NpInt(int.__neg__(self))
+NpInt.__pos__ = lambda self: self
+NpInt.__invert__ = lambda self: NpInt(int.__invert__(self))
+
+
 class SArr:
     """abstract ndarray: shape (ints) and a dict index-tuple -> value; or a symbolic block"""
 
@@ -1654,6 +1688,12 @@ class Interp:
             return unk[0] if unk else False
         if isinstance(c, Builtin):
             c = {"bool": bool}.get(c.name, c)
+        if isinstance(v, NpInt):
+            if isinstance(c, Opaque) and c.tag in ("np.integer", "np.number", "np.signedinteger", "np.generic", "np.int64"):
+                return True
+            if isinstance(c, Obj) and c.kind == "dtype":
+                return c.attrs.get("name") == "int64"
+            return False
         if c is int:
             return isinstance(v, int) and not isinstance(v, bool) or isinstance(v, Sym) or (isinstance(v, bool))
         if c is str:
@@ -1729,6 +1769,8 @@ class Interp:
                 x = a[0]
                 if isinstance(x, bool):
                     return bool
+                if isinstance(x, NpInt):
+                    return I.np_dtype("int64")
                 if isinstance(x, int):
                     return int
                 if isinstance(x, Sym):
